@@ -39,6 +39,14 @@ type AttrSpec struct {
 	Group []AttrSpec `json:"g,omitempty"`
 }
 
+// gauge is what gaugeValuer reports; the sequential check moves it before
+// every record (the concurrent checks leave it alone).
+var gauge atomic.Int64
+
+type gaugeValuer struct{}
+
+func (gaugeValuer) LogValue() slog.Value { return slog.Int64Value(gauge.Load()) }
+
 type textMarshaler struct{ s string }
 
 func (t textMarshaler) MarshalText() ([]byte, error) { return []byte(t.s), nil }
@@ -78,6 +86,10 @@ func (a AttrSpec) build() slog.Attr {
 		return slog.Any(k, textMarshaler{string(a.Str)})
 	case 13:
 		return slog.Attr{}
+	case 16:
+		// A slog.LogValuer whose result follows an external gauge: it must be
+		// evaluated when a record is printed, not when a handler is derived.
+		return slog.Any(k, gaugeValuer{})
 	case 15:
 		// A large value: the text line outgrows any pooled buffer.
 		return slog.String(k, strings.Repeat("y", int(uint64(a.Int)%60000)))
@@ -293,6 +305,7 @@ func (w *faultyWriter) Write(p []byte) (int, error) {
 }
 
 func checkSequential(c Case) error {
+	gauge.Store(-5) // the value while handlers are derived
 	buf := &bytes.Buffer{}
 	opts := c.opts()
 	fw := &faultyWriter{buf: buf, failAt: c.FailAt, kind: c.FailKind}
@@ -308,6 +321,7 @@ func checkSequential(c Case) error {
 	}
 	nontrivial := false
 	for ri, rs := range c.Records {
+		gauge.Store(int64(ri*7 + 1))
 		r := rs.build()
 		for _, u := range rs.Uses {
 			n := nodes[u%len(nodes)]
@@ -433,6 +447,10 @@ var strGen = rapid.OneOf(
 func attrGen(depth int) *rapid.Generator[AttrSpec] {
 	return rapid.Custom(func(t *rapid.T) AttrSpec {
 		a := AttrSpec{Key: vp.S(strGen.Draw(t, "key")), Kind: rapid.IntRange(0, 14).Draw(t, "kind")}
+		if rapid.IntRange(0, 15).Draw(t, "gauge") == 0 {
+			a.Kind = 16
+			return a
+		}
 		if rapid.IntRange(0, 500).Draw(t, "big") == 317 {
 			a.Kind = 15
 			a.Int = int64(rapid.SampledFrom([]int{300, 5000, 9500, 17000, 20000}).Draw(t, "bigsize"))
